@@ -64,10 +64,36 @@ structure MInv (f : Forest) (e nm : Nat) (N A S : List HTree) : Prop where
   sect : Sect (N ++ A ++ S) N A S
   uniq : ∀ k, ((Sect.sec k N A).map keyOf).Nodup
   below : ∀ h ∈ f.allHandles, h < f.next
+  /-- attribute and namespace nodes have no children -/
+  leaf : ∀ k, ∀ x ∈ Sect.sec k N A, x.kids = []
 
 theorem isElement_of_get (f : Forest) (e nm : Nat) (ks : List HTree)
     (h : f.get? e = some (.node e (.element nm) ks)) : f.isElement e = true := by
   simp [Forest.isElement, Forest.value?, h, HTree.value, Value.isElement]
+
+theorem validList_mem' (b : Bool) (ks : List HTree) (hv : validList b ks = true) (r : HTree)
+    (hr : r ∈ ks) : validTree b r = true := by
+  induction ks with
+  | nil => cases hr
+  | cons k ks ih =>
+    simp only [validList, Bool.and_eq_true] at hv
+    rcases List.mem_cons.mp hr with rfl | hr
+    · exact hv.1
+    · exact ih hv.2 hr
+
+/-- A valid attribute or namespace node has no children. -/
+theorem entry_leaf (b : Bool) (x : HTree) (hv : validTree b x = true)
+    (hc : x.value.category ≠ .normal) : x.kids = [] := by
+  cases x with
+  | node h v ks =>
+    simp only [validTree, Bool.and_eq_true] at hv
+    obtain ⟨⟨⟨⟨⟨hall, _⟩, _⟩, _⟩, _⟩, _⟩ := hv
+    cases ks with
+    | nil => rfl
+    | cons c cs =>
+      exfalso
+      simp only [List.all_cons, Bool.and_eq_true] at hall
+      cases v <;> simp [kidAllowed, HTree.value, Value.category] at hall hc
 
 /-- The invariant gives `MInv` at every live element. -/
 theorem minv_of_inv (f : Forest) (e : Nat) (hi : f.Inv) (he : f.isElement e = true) :
@@ -85,16 +111,24 @@ theorem minv_of_inv (f : Forest) (e : Nat) (hi : f.Inv) (he : f.isElement e = tr
       | element nm =>
         have hv := validList_findList? _ h f.roots _ hi.valid hg
         simp only [validTree, Bool.and_eq_true] at hv
-        obtain ⟨⟨⟨⟨⟨_, ho⟩, hua⟩, hun⟩, _⟩, _⟩ := hv
+        obtain ⟨⟨⟨⟨⟨_, ho⟩, hua⟩, hun⟩, _⟩, hvk⟩ := hv
         have hs := sect_of_ordered ks ho
         refine ⟨nm, ks.takeWhile isNs, (ks.dropWhile isNs).takeWhile isAt,
-          (ks.dropWhile isNs).dropWhile isAt, ⟨hi.nodup, ?_⟩, ?_, ?_, hi.below⟩
+          (ks.dropWhile isNs).dropWhile isAt, ⟨hi.nodup, ?_⟩, ?_, ?_, hi.below, ?_⟩
         · rw [hg]; congr 2; exact hs.eq
         · rw [← hs.eq]; exact hs
         · intro k
           cases k
           · exact hs.keysUnique_at.mp hua
           · exact hs.keysUnique_ns.mp hun
+        · intro k x hx
+          have hxk : x ∈ ks := by
+            rw [hs.eq]
+            cases k
+            · exact List.mem_append_left _ (List.mem_append_right _ hx)
+            · exact List.mem_append_left _ (List.mem_append_left _ hx)
+          have hcat := hs.sec_cat k x hx
+          exact entry_leaf _ x (validList_mem' _ ks hvk x hxk) (by rw [hcat]; exact kindCat_ne_normal k)
       | _ => simp [HTree.value, Value.isElement] at he
 
 theorem MInv.isElement {f : Forest} {e nm : Nat} {N A S : List HTree} (h : MInv f e nm N A S) :
@@ -130,18 +164,22 @@ theorem MInv.getNode {f : Forest} {e nm : Nat} {N A S : List HTree} (h : MInv f 
 
 /-- The new state's `MInv` after the section of kind `k` became `s'`. -/
 theorem MInv.update {f f' : Forest} {e nm : Nat} {N A S : List HTree} (h : MInv f e nm N A S)
-    (k : MapKind) (s' : List HTree)
+    (k : MapKind) (s' : List HTree) (hleaf : ∀ x ∈ s', x.kids = [])
     (hloc : Located f' e (.element nm) (preK k N ++ s' ++ postK k A S))
     (hcat : ∀ x ∈ s', x.value.category = kindCat k)
     (huniq : (s'.map keyOf).Nodup)
     (hbelow : ∀ h ∈ f'.allHandles, h < f'.next) :
     MInv f' e nm (setSecN k N s') (setSecA k A s') S := by
-  refine ⟨?_, h.sect.setSec k s' hcat, ?_, hbelow⟩
+  refine ⟨?_, h.sect.setSec k s' hcat, ?_, hbelow, ?_⟩
   · rw [setSec_kids]; exact hloc
   · intro k'
     by_cases hk : k' = k
     · subst hk; rw [sec_setSec]; exact huniq
     · rw [sec_setSec_other k k' N A s' hk]; exact h.uniq k'
+  · intro k'
+    by_cases hk : k' = k
+    · subst hk; rw [sec_setSec]; exact hleaf
+    · rw [sec_setSec_other k k' N A s' hk]; exact h.leaf k'
 
 theorem MInv.abs_update {f' : Forest} {e nm : Nat} {N A S s' : List HTree} {k : MapKind}
     (h' : MInv f' e nm (setSecN k N s') (setSecA k A s') S) :
@@ -216,6 +254,14 @@ theorem insert_existing {f : Forest} {e nm : Nat} {N A S : List HTree} (h : MInv
     simp
   refine ⟨heq, ?_, ?_, ?_⟩
   · apply h.update k (s1 ++ n' :: s2)
+    · intro x hx
+      simp only [List.mem_append, List.mem_cons] at hx
+      rcases hx with hx | hx | hx
+      · exact h.leaf k x (by rw [hs]; simp [hx])
+      · rw [hx]
+        have : n'.kids = n.kids := by cases n; rfl
+        rw [this]; exact h.leaf k n (by rw [hs]; simp)
+      · exact h.leaf k x (by rw [hs]; simp [hx])
     · constructor
       · rw [← heq]
         show (f.setValue _ _).allHandles.Nodup
